@@ -362,7 +362,16 @@ const (
 	EnvA, EnvAVal = "VERIF_C17_A", "alpha"
 	EnvB, EnvBVal = "VERIF_C17_B", "Bravo9"
 	EnvU          = "VERIF_C17_UNDEF"
+	// values that interact with the quoting rules of the formats: UseEnv() substitutes in the *text*
+	// of the file, so the reference for these is the byte loader applied to os.ExpandEnv(text)
+	EnvC, EnvCVal = "VERIF_C17_C", `C:\temp\new dir\x`
+	EnvD, EnvDVal = "VERIF_C17_D", `say "hi" to 'them'`
+	EnvE, EnvEVal = "VERIF_C17_E", "tab\there: # not a comment"
 )
+
+var hostileEnvStrings = []string{
+	"${" + EnvC + "}", "p-$" + EnvC, "${" + EnvD + "}", "q ${" + EnvD + "} r", "${" + EnvE + "}", "${" + EnvA + "}/${" + EnvC + "}",
+}
 
 var envStrings = []string{
 	"${" + EnvA + "}", "$" + EnvB, "pre-${" + EnvA + "}-post", "x$" + EnvB + ".y",
@@ -408,6 +417,8 @@ type DocGen struct {
 	F32Mid bool // float32 slots may receive the midpoint of two adjacent float32 values
 	Muts   []string
 	HasEnv bool
+	// HasHostileEnv: the document refers to a variable whose value contains quoting-relevant characters
+	HasHostileEnv bool
 	// F32MidUsed / F32MidSkipped count the midpoint literals placed / withheld.
 	F32MidUsed, F32MidSkipped int
 	n                         int
@@ -728,6 +739,10 @@ func (g *DocGen) str() string {
 		return rapid.SampledFrom(hostileStrings).Draw(g.T, "hs")
 	case c == 3 && g.Env:
 		g.HasEnv = true
+		if rapid.IntRange(0, 3).Draw(g.T, "hostileEnv") == 0 {
+			g.HasHostileEnv = true
+			return rapid.SampledFrom(hostileEnvStrings).Draw(g.T, "hes")
+		}
 		return rapid.SampledFrom(envStrings).Draw(g.T, "es")
 	case c <= 6:
 		return rapid.StringOfN(rapid.SampledFrom(randRunes), 0, 8, -1).Draw(g.T, "rs")
